@@ -52,7 +52,7 @@ func queryMenu(w *mc.World, r *mc.Req) []mc.Outcome {
 			{Name: "model", Data: func() []byte { return w.Svc.QueryAnswer(f.name, q, "model") }},
 			{Name: "events", Data: func() []byte { return w.Svc.QueryAnswer(f.name, q, "events") }},
 			lie(mc.Outcome{Name: "empty", Data: func() []byte { return w.Svc.QueryAnswer(f.name, q, "empty") }}),
-			lie(mc.ResErr("system.internalError")), derivedDelete(w, f.name, lie(mc.ResErr("system.notFound"))), lie(mc.Timeout()),
+			lie(mc.ResErr("system.internalError")), derivedDelete(w, f.name, lie(mc.ResErr("system.notFound"))), lie(mc.Timeout()), lie(mc.NoResponders()),
 			lie(mc.Raw("noevents", `{"result":{}}`)),
 		}
 	}
